@@ -277,11 +277,12 @@ class Ctx:
             sol.add(k >= a0.lo, k < a0.extent)
             sol.add(point != 0)
             rr = sol.check()
-            if rr != z3.unsat:
+            exact_sat = rr == z3.sat        # the summands really differ at some index for some input: the goal stays as it is
+            if rr == z3.unknown:
                 # congruence usually suffices: retry with every non-linear product replaced by an uninterpreted function
-                # of its (sorted) factors -- any proof found for arbitrary `mul` holds for the real product
+                # of its (sorted) factors -- any proof found for arbitrary `mul` holds for the real product (a `sat` answer of
+                # this abstraction means nothing)
                 sol2 = z3.Solver()
-                sol2.set("timeout", 4000)
                 for h in self.hypotheses():
                     sol2.add(h)
                 if ant is not None:
@@ -294,27 +295,42 @@ class Ctx:
                 rr = sol2.check()
                 if rr != z3.unsat:
                     # a fresh solver process on the same text is often far quicker than the long-lived in-process
-                    # context (observed: 0.1 s against a 4 s timeout)
+                    # context (observed: 0.1 s against a 4 s timeout); then the exact (non-abstracted) query, which alone can
+                    # also REFUTE pointwise equality
                     import subprocess, tempfile
-                    with tempfile.NamedTemporaryFile("w", suffix=".smt2", prefix="pw_", delete=False) as tf:
-                        tf.write(sol2.to_smt2())
-                    try:
-                        out = subprocess.run(["z3-new", "-T:30", tf.name], capture_output=True, text=True).stdout.strip()
-                        if out.splitlines()[:1] == ["unsat"]:
+
+                    def _ext(text, tools=("z3-new", "z3")):
+                        with tempfile.NamedTemporaryFile("w", suffix=".smt2", prefix="pw_", delete=False) as tf:
+                            tf.write(text)
+                        try:
+                            for tool in tools:
+                                out = subprocess.run([tool, "-T:30", tf.name], capture_output=True, text=True).stdout.strip()
+                                first = out.splitlines()[:1]
+                                if first in (["unsat"], ["sat"]):
+                                    return first[0]
+                            return "unknown"
+                        finally:
+                            os.unlink(tf.name)
+                    r_abs = _ext(sol2.to_smt2())
+                    if r_abs == "unsat":
+                        rr = z3.unsat
+                    else:
+                        r_ex = _ext(sol.to_smt2())
+                        if r_ex == "unsat":
                             rr = z3.unsat
-                        elif out.splitlines()[:1] != ["sat"]:
-                            out = subprocess.run(["z3", "-T:30", tf.name], capture_output=True, text=True).stdout.strip()
-                            if out.splitlines()[:1] == ["unsat"]:
-                                rr = z3.unsat
-                            elif out.splitlines()[:1] != ["sat"]:
-                                self.pointwise_inconclusive = True
-                    finally:
-                        os.unlink(tf.name)
+                        elif r_ex == "sat":
+                            rr, exact_sat = z3.sat, True
+                        else:
+                            rr = z3.unknown
                 if os.environ.get("SIGMA_DEBUG"):
-                    print("SIGMA-PW abstracted", rr, sol2.reason_unknown() if rr == z3.unknown else "", round(_t.time() - _t0, 2))
-                    open("/verif/scratch/pw_query.smt2", "w").write(sol2.to_smt2())
+                    print("SIGMA-PW abstracted", rr, round(_t.time() - _t0, 2))
+            if rr != z3.unsat and not exact_sat:
+                # neither proved nor refuted: a `sat` answer for the goal, in which the sums are unrelated constants, would be
+                # spurious -- the driver reports UNDECIDED for it, never a violation
+                self.pointwise_inconclusive = True
             if os.environ.get("SIGMA_DEBUG"):
                 print("SIGMA-PW point", rr, str(point)[:600])
+                open("/verif/scratch/pw_point.txt", "a").write(str(rr) + "\n" + str(z3.simplify(point)) + "\n\n" + sol.to_smt2() + "\n=====\n")
             if rr == z3.unsat:
                 self.notes.append("sum equality discharged by pointwise congruence")
                 return z3.BoolVal(True) if ant is None else z3.Implies(ant, z3.BoolVal(True))
@@ -395,9 +411,47 @@ class Ctx:
             meta = dict(meta or {})
             meta["sum_congruence"] = "inconclusive"
         hyps = relevant(self.hypotheses(extra_terms), goal)
+        sig = self._sigma_export(hyps, goal)
+        if sig is not None:
+            meta = dict(meta or {})
+            meta["sigma_smt2"], meta["sigma_n"], meta["sigma_nested"] = sig
         self.obligations.append(
             Obligation(name, hyps, goal, list(self.prefix[: self.cursor]), kind, meta, getvals)
         )
+
+    def _sigma_export(self, hyps, goal):
+        """the finite sums this obligation talks about (symbol, summand, range), as SMT-LIB text: a `sat` answer treats each
+        sum as an unrelated constant, so the driver re-evaluates the sums under the counter-model before believing it"""
+        try:
+            if not self.sigma_atoms:
+                return None
+            names, seen, stack = set(), set(), [goal] + list(hyps)
+            while stack:
+                t = stack.pop()
+                i = t.get_id()
+                if i in seen:
+                    continue
+                seen.add(i)
+                if z3.is_app(t):
+                    if t.decl().kind() == z3.Z3_OP_UNINTERPRETED:
+                        names.add(t.decl().name())
+                    stack.extend(t.children())
+                elif z3.is_quantifier(t):
+                    stack.append(t.body())
+            used = [a for a in self.sigma_atoms if a.sym.decl().name() in names]
+            if not used:
+                return None
+            nested = any(a.depth != 0 or a.bound for a in used)
+            flat = [a for a in used if a.depth == 0 and not a.bound]
+            sol = z3.Solver()
+            for j, a in enumerate(flat):
+                sol.add(z3.Real(f"sigv!sym!{j}") == a.sym)
+                sol.add(z3.Real(f"sigv!core!{j}") == to_real(a.core))
+                sol.add(z3.Int(f"sigv!ext!{j}") == a.extent)
+                sol.add(z3.Int(f"sigv!lo!{j}") == a.lo)
+            return sol.to_smt2(), len(flat), nested
+        except Exception:
+            return None
 
 
 _DEF_FAMILIES = ("fd_s", "fd_q", "ti")
